@@ -56,7 +56,8 @@ Definition C10_full : Prop := forall (mangle : text -> text) t,
    keywords, list/tuple/set/dict displays, calls with keyword and unpacking arguments, the
    operator macros, and/or, if, get, unpack-iterable, chainc; other heads give CUnmodelled)
    that avoids the shapes of [good]: dict displays in which a #** form sits in a value position, an
-   argument-less (unpack-mapping) form, chainc without a comparison pair.
+   argument-less (unpack-mapping) form (and, as a sufficient condition kept from before the fix aeaad9f, chainc
+   without a comparison pair, which the grammar now rejects).
    The outcome is a validator-accepted AST or a user-facing error -- never an internal one. *)
 Theorem C10_compile_outcome_classes_partial : forall (mangle : text -> text) t, good t = true ->
   match compile mangle t with COk e => validate e = true | CInternal => False | _ => True end.
@@ -64,14 +65,14 @@ Proof. exact compile_outcome. Qed.
 Print Assumptions C10_compile_outcome_classes_partial.
 
 (* Each excluded shape refutes the full statement (witnesses replayed on the real compiler:
-   findings C10-chainc-no-pairs, C10-dict-unpack-in-value-position, C10-bare-unpack-mapping). *)
-Theorem C10_refuted_chainc_single :
-  exists e, compile toy_mangle (HExpr [sym [99;104;97;105;110;99]; x_]) = COk e /\ validate e = false.
-Proof. exact refuted_chainc_single. Qed.
+   findings C10-dict-unpack-in-value-position, C10-bare-unpack-mapping). *)
 Theorem C10_refuted_dict_unpack_misaligned :
   exists e, compile toy_mangle (HDict [x_; HExpr [HSym s_unpack_mapping; x_]; x_]) = COk e /\ validate e = false.
 Proof. exact refuted_dict_unpack_misaligned. Qed.
-(* after the fixes bac53a5 / c0e258f an odd dict and a #** operand of a comparison are user-facing errors *)
+(* after the fixes bac53a5 / c0e258f / aeaad9f an odd dict, a #** operand of a comparison and a chainc without
+   a comparison pair are user-facing errors *)
+Example C10_chainc_single_is_user_error : compile toy_mangle (HExpr [sym [99;104;97;105;110;99]; x_]) = CUser.
+Proof. exact chainc_single_is_user_error. Qed.
 Example C10_odd_dict_is_user_error : compile toy_mangle (HDict [HInt 1]) = CUser.
 Proof. exact odd_dict_is_user_error. Qed.
 Example C10_compare_unpack_mapping_is_user_error :
